@@ -59,6 +59,8 @@ class Resolver:
                         if tgt is not None and tgt.kind != "reexport":
                             tab[k] = tgt
         self._cg: Optional[nx.DiGraph] = None
+        self._et_cache: Dict[tuple, tuple] = {}
+        self._rc_cache: Dict[tuple, tuple] = {}
         self.unresolved: List[Tuple[str, str, int]] = []
         self._cstructs: Dict[str, dict] = {}
 
@@ -216,6 +218,17 @@ class Resolver:
         """Best-effort static class of an expression: 'module.Class' or None."""
         if depth > 4:
             return None
+        if depth == 0:
+            key = (f.fq, id(e))
+            hit = self._et_cache.get(key)
+            if hit is not None and hit[0] is e:
+                return hit[1]
+            r = self._expr_type(f, e, 0)
+            self._et_cache[key] = (e, r)
+            return r
+        return self._expr_type(f, e, depth)
+
+    def _expr_type(self, f: Func, e: ast.AST, depth: int = 0) -> Optional[str]:
         e = strip_cast(e)
         modname = f.module.name
         if isinstance(e, ast.Name):
@@ -297,6 +310,17 @@ class Resolver:
 
     # ------------------------------------------------------------------ calls
     def resolve_call(self, f: Func, call: ast.Call, depth: int = 0) -> Callee:
+        if depth == 0:
+            key = (f.fq, id(call))
+            hit = self._rc_cache.get(key)
+            if hit is not None and hit[0] is call:
+                return hit[1]
+            r = self._resolve_call(f, call, 0)
+            self._rc_cache[key] = (call, r)
+            return r
+        return self._resolve_call(f, call, depth)
+
+    def _resolve_call(self, f: Func, call: ast.Call, depth: int = 0) -> Callee:
         modname = f.module.name
         fn = call.func
         d = dotted(fn)
